@@ -432,6 +432,12 @@ def run(ck):
         for pats, prod in ((['[C:1][O;D1:2]'], '[A:1][A:2][C:3](=[O:4])[C:5]'), (['[C:1][O;D1:2]', '[C:3][N;D1:4]'], '[A:1][A:2][C:5](=[O:6])[A:4][A:3]')):
             cases.append({'part': 'reactor', 'key': f'reactor|synthetic|{pats}|{[a, b]}|{k % 2}', 'patterns': pats, 'product': prod, 'mols': [a, b] if k % 2 else [b, a], 'one_shot': k % 3 != 0,
                           'rs': rnd.randrange(1 << 30)})
+    # a reactant with several matches of the second pattern (every combination with one match of the first must give its own product)
+    for k, (a, b) in enumerate([('CCO', 'NCC(C)N'), ('OCCO', 'NCCCN'), ('CC(O)CO', 'NCCN'), ('CO', 'NCC(N)CN'), ('OCC(C)O', 'CC(N)CN')]):
+        for pats, prod in ((['[C:1][O;D1:2]', '[C:3][N;D1:4]'], '[A:1][A:2][C:5](=[O:6])[A:4][A:3]'), (['[C:1][O;D1:2]', '[C:3][N;D1:4]'], '[A:1][A:2][S:5](=[O:6])(=[O:7])[A:4][A:3]')):
+            for shot in (True, False):
+                cases.append({'part': 'reactor', 'key': f'reactor|synthetic|{pats}|{prod}|{[a, b]}|several-matches|{int(shot)}', 'patterns': pats, 'product': prod, 'mols': [a, b], 'one_shot': shot,
+                              'rs': rnd.randrange(1 << 30)})
     seen, uc = set(), []
     for c in cases:
         if c['key'] not in seen:
